@@ -39,3 +39,40 @@ PROPS["C02"] = {
         {"name": "c02-ratchet", "pkg": SECRETSTORE, "run": "TestVerifC02", "timeout": {"quick": 600, "thorough": 3000}},
     ],
 }
+
+PROPS["C11"] = {
+    "level": "exploration",
+    "units": [
+        {"name": "c11-derivation", "pkg": SECRETSTORE, "run": "TestVerifC11", "timeout": {"quick": 600, "thorough": 2400}},
+    ],
+}
+PROPS["C05"] = {
+    "level": "exploration",
+    "units": [
+        {"name": "c05a-announcements", "pkg": SECRETSTORE, "run": "TestVerifC05A", "timeout": {"quick": 600, "thorough": 2400}},
+    ],
+}
+PROPS["C09"] = {
+    "level": "exploration",
+    "units": [
+        {"name": "c09-concurrent-seal", "pkg": SECRETSTORE, "run": "TestVerifC09", "race": True, "race_decides": True,
+         "race_anchors": ["pkg/secretstore/secret_store_messages.go", "pkg/secretstore/secret_store.go",
+                          "pkg/secretstore/device_keystore_wrapper.go", "pkg/secretstore/chain_key.go"],
+         "timeout": {"quick": 900, "thorough": 3000}},
+        {"name": "c09-porcupine", "kind": "script",
+         "cmd": ["python3", "lib/porcu.py", "C09", "c09-porcupine", "counter", "c09-history-"]},
+    ],
+}
+PROPS["C10"] = {
+    "level": "fault_enumeration",
+    "units": [
+        {"name": "c10-crash-points", "pkg": SECRETSTORE, "run": "TestVerifC10", "timeout": {"quick": 900, "thorough": 3000}},
+    ],
+}
+
+PROPS["C14"] = {
+    "level": "exploration",
+    "units": [
+        {"name": "c14-push", "pkg": SECRETSTORE, "run": "TestVerifC14", "timeout": {"quick": 600, "thorough": 2400}},
+    ],
+}
